@@ -410,7 +410,7 @@ func (r *Replayer) Replay(spec HarnessSpec, v *Violation, cexPath string) (bool,
 	case "assert":
 		return strings.Contains(s, "VERIF-ASSERT-FAIL "+v.Label+"\n") || strings.Contains(s, "VERIF-ASSERT-FAIL "+v.Label+" "), s
 	case "panic":
-		return strings.Contains(s, "panic:") || strings.Contains(s, "fatal error:") || strings.Contains(s, "VERIF-ALLOC-EXCEEDED"), s
+		return strings.Contains(s, "panic:") || strings.Contains(s, "panic serving") || strings.Contains(s, "fatal error:") || strings.Contains(s, "VERIF-ALLOC-EXCEEDED"), s
 	}
 	return false, s
 }
